@@ -292,7 +292,7 @@ func main() {
 	c := kit.New("C20", "fault_enumeration")
 	c.Rule = "10 fixed scenarios = (initial store, init flags): empty; Helm-created secrets without data; only a foreign CA secret; CA + server secret lacking ca.crt; TLS secrets without CA secret; CRDs/webhook configurations with missing or stale caBundle plus an old stored version (migrator); fully initialised by a previous real run (same flags / package upgrade); user-edited StoreConfig, DeploymentRuntimeConfig and Lock; Provider/Configuration/Function pre-installed under custom names from sources with and without registry host, with tag, digest, tag+digest or bare. Requested packages cover host/host:port/no-host x tag/digest/tag+digest/bare. Per scenario: runs 1..3 fault-free, and for every API-call index of run 1 x {500, timeout, applied-but-timeout-returned} an aborted run + clean rerun (quick: every 3rd index x 3 outcomes, but only every 9th index x 1 rotating outcome inside the uniform loop over the CRDs; offsets depend on seed and scenario). Oracles O1 state equality, O2 key material kept, O3 x509 chain/key pair/DNS names, O4 one package object per (kind, registry+repository), O5 defaults untouched, O6 every caBundle authenticates the stored server certificate. distinct = (scenario, run | call index, outcome); non-trivial = the initial store is non-empty or the abort fell at a call index > 0 (and the fault was reached). Not generated (debatable under the property): TLS/CA secrets holding only unusable fragments (e.g. only ca.crt, or a CA certificate without key); a repository requested with a registry host while installed without one or vice versa; repositories whose names collide after DNS-label mangling; user-added entries inside webhook configurations."
 	c.Rule += " " + "Migrator part: the six storage-version migrators alone over 2-6 Functions with the server's page size capped at 1-4, every call index x 7 outcomes (incl. 410 Gone on a continue token, 404, 409); the old version may leave status.storedVersions only after every object was rewritten."
-	c.Rule += " " + "A CA secret whose valid CA expires in 90 days; pre-installed packages under dotted and 74-character object names."
+	c.Rule += " " + "A CA secret whose valid CA expires in 90 days; pre-installed packages under dotted and 74-character object names; a pre-installed package whose source is not an image reference (preloaded, sorts first)."
 	c.Rule += " " + "CA secrets holding only the certificate or only the key."
 	c.Rule += " " + "Scenarios with pre-installed packages are also run against a server that caps list pages at 1 and 2 objects; the result must be that of the uncapped server."
 	c.Assumptions = []string{
